@@ -82,6 +82,36 @@ pub fn generate(g: &mut Gen) {
         g.push(format!("t.mean {} 2 {} {}", qt(&a), qt(&b), qt(&o)), Tol::Tight, &format!("mean/long/{}/k2", rank), true);
         g.push(format!("t.clamp {} {} {}", qt(&a), hx(-0.5), hx(0.75)), Tol::Exact, &format!("clamp/long/{}", rank), true);
     }
+    // operands that cancel exactly (x and -x), exact zeros and ones in one operand: the result is still the operation on
+    // every pair (a sum that is exactly zero is a zero; a factor that is exactly zero gives a zero)
+    for s in [Shape::Single(5), Shape::Double(2, 3), Shape::Triple(2, 2, 2), Shape::Quadruple(1, 2, 2, 2)] {
+        let rank = match s { Shape::Single(_) => "1d", Shape::Double(..) => "2d", Shape::Triple(..) => "3d", _ => "4d" };
+        let a = g.tensor_of(&s, false);
+        let mut neg = a.clone();
+        let mut zeros = a.clone();
+        let mut mixed = a.clone();
+        let mut k = 0usize;
+        let mut each = |t: &mut Tensor, f: &mut dyn FnMut(usize, f32) -> f32| {
+            let mut i = 0usize;
+            match &mut t.data {
+                Data::Single(v) => v.iter_mut().for_each(|x| { *x = f(i, *x); i += 1; }),
+                Data::Double(v) => v.iter_mut().flatten().for_each(|x| { *x = f(i, *x); i += 1; }),
+                Data::Triple(v) => v.iter_mut().flatten().flatten().for_each(|x| { *x = f(i, *x); i += 1; }),
+                Data::Quadruple(v) => v.iter_mut().flatten().flatten().flatten().for_each(|x| { *x = f(i, *x); i += 1; }),
+                _ => (),
+            }
+        };
+        each(&mut neg, &mut |_, x| -x);
+        each(&mut zeros, &mut |_, _| 0.0);
+        each(&mut mixed, &mut |i, x| { k += 1; match i % 4 { 0 => 0.0, 1 => -0.0, 2 => 1.0, _ => x } });
+        for (label, b) in [("negated", &neg), ("zeros", &zeros), ("zeros-and-ones", &mixed)] {
+            binops(g, &a, b, &format!("special-operand/{}/{}", label, rank), true);
+            binops(g, b, &a, &format!("special-operand/{}/{}/swapped", label, rank), true);
+            g.push(format!("t.mean {} 1 {}", qt(&a), qt(b)), Tol::Exact, &format!("mean/special-operand/{}/{}", label, rank), true);
+            g.push(format!("t.mean {} 1 {}", qt(b), qt(&a)), Tol::Exact, &format!("mean/special-operand/{}/{}/swapped", label, rank), true);
+            g.push(format!("t.mean {} 2 {} {}", qt(&a), qt(b), qt(&a)), Tol::Tight, &format!("mean/special-operand/{}/{}/k2", label, rank), true);
+        }
+    }
     // mean with no others is refused
     let a = g.tensor_of(&Shape::Single(3), false);
     g.push(format!("t.mean {} 0", qt(&a)), Tol::Exact, "mean/empty", true);
